@@ -177,7 +177,11 @@ class Type1Tag(Tag):
                     offset += 1
                     continue
 
-                tlv_t, tlv_l, tlv_v = read_tlv(tag_memory, offset, skip_bytes)
+                try:
+                    tlv_t, tlv_l, tlv_v = read_tlv(
+                        tag_memory, offset, skip_bytes)
+                except Type1TagCommandError:
+                    return None
                 log.debug("tlv type {0} at address {1}".format(tlv_t, offset))
 
                 if tlv_t == 0x00:
